@@ -715,7 +715,14 @@ pub fn oracle_c06(scn: &E1Scn, d: &Digest, stats: &mut Stats) -> Vec<Violation> 
             if lag > 0 && alive_at_expiry {
                 stats.hit("probe:slow-death-at-grace-expiry");
                 if let (Some((e, _)), Some((rt, _, _))) = (c.exit, c.reaped) {
-                    if rt != e {
+                    // (a wait() error in the middle of the kill ends that control after the error handler: the job task
+                    // goes back to its queue, and whatever it is in the middle of when the process finally dies - a user's
+                    // async closure, a hook - finishes before the reap)
+                    let slack = if c.wait_faults > 0 { busy_bound(scn) } else { 0 };
+                    if c.wait_faults > 0 && rt != e {
+                        stats.hit("probe:reap-delayed-after-wait-error-in-kill");
+                    }
+                    if rt < e || rt > e.saturating_add(slack) {
                         vs.push(Violation::new("not-reaped-at-grace-expiry", st.op.name(), format!("child {ci} died at t={e} after the kill at t={deadline} but was reaped at t={rt}")));
                     }
                 }
